@@ -59,7 +59,8 @@ class Site:
 
 class EscapeAnalysis:
     def __init__(self, pm, cg, functions, lib_raises=None, assert_policy=None,
-                 extra_edges=None, narrow=None, absorb=None, skip_call=None):
+                 extra_edges=None, narrow=None, absorb=None, skip_call=None,
+                 narrow_all_nodes=False):
         """
         functions: dict qualname -> FuncInfo : the functions analysed
         lib_raises: callable(func, call_node) -> iterable of exception names
@@ -79,6 +80,7 @@ class EscapeAnalysis:
         self.narrow = narrow or (lambda f, c, cands: cands)
         self.absorb = absorb or (lambda f, n: set())
         self.skip_call = skip_call or (lambda f, c: False)
+        self.narrow_all_nodes = narrow_all_nodes
         self.parent = dict(BUILTIN_PARENT)
         for c in pm.classes.values():
             # repo exception classes
@@ -187,7 +189,7 @@ class EscapeAnalysis:
             by_node.setdefault(id(node), (node, []))[1].append(callee)
         out = []
         for node, cands in by_node.values():
-            if isinstance(node, ast.Call):
+            if isinstance(node, ast.Call) or self.narrow_all_nodes:
                 cands = self.narrow(func, node, cands)
             for c in cands:
                 out.append((node, c))
